@@ -95,7 +95,20 @@ def gen_plan(rng, family):
             main.append(["resize", rng.choice([1, 2, 3])])
         if rng.random() < 0.3:
             plan["threads"].append([["resize", rng.choice([1, 2, 3])], ["submit", "value"]])
-        if rng.random() < 0.12:
+        if rng.random() < 0.35:
+            # quiet resizes: no idle time-out (workers wait without a time-out, so none can expire), no kill, one thread, the
+            # pool started first; after EACH call the size and the identity of the survivors are compared with what
+            # Proofs/ResizeThm.resize_returns_as_asked says
+            plan["workers"] = rng.choice([1, 2, 3, 4])
+            plan["timeout"] = None
+            plan["kill_budget"] = 0
+            seq = [["submit", "value"]] * rng.randint(1, 2)
+            for _ in range(rng.randint(1, 3)):
+                seq.append(["resize", rng.choice([1, 2, 3, 4, 5])])
+                if rng.random() < 0.5:
+                    seq.append(["submit", rng.choice(["value", "long"])])
+            plan["threads"] = [seq]
+        elif rng.random() < 0.12:
             # a shrink by more workers than the call queue has slots (2 * cpu_count() + 1 = 5 in the simulation)
             plan["workers"] = rng.choice([7, 8])
             plan["timeout"] = 10
@@ -224,11 +237,13 @@ def make_program(plan):
                     env.notes.setdefault("resizes", []).append(act[1])
                     prev = S.re_._executor
                     started = prev is not None and prev._executor_manager_thread is not None
+                    pids_before = set(dict.copy(prev._processes)) if prev is not None else set()
                     t_before = sum(1 for c in env.kern.choices if c[0] in ("timeout", "kill") and (len(c) < 3 or c[2] != "sleep"))
                     ex = env.reusable(act[1], timeout=plan["timeout"])
                     t_after = sum(1 for c in env.kern.choices if c[0] in ("timeout", "kill") and (len(c) < 3 or c[2] != "sleep"))
                     env.notes["last_resize"] = (act[1], sorted(dict.copy(ex._processes)), ex._flags.broken is not None,
-                                                started and ex is prev, t_after - t_before)
+                                                started and ex is prev, t_after - t_before, sorted(pids_before))
+                    env.notes.setdefault("all_resizes", []).append(env.notes["last_resize"])
                 elif op == "get":
                     _, mw, tmo, reuse, kill = act
                     re_ = S.re_
@@ -527,11 +542,17 @@ def analyze(plan, r):
                 add(["C06"], "bad-outcome", f"kill-shutdown-outcome got[{c}] ctx[{ctx}]", f"task {tid}")
     # 9. resize (C10)
     if fam == "resize" and ended and "last_resize" in notes and not kills:
-        want, pids, broken, same_started, faults = notes["last_resize"]
         worker_timeouts = sum(1 for c in r.choices if c[0] == "timeout" and str(c[1]).startswith("w"))
-        if (not broken and same_started and faults == 0 and worker_timeouts == 0 and len(pids) != want
-                and len(plan["threads"]) == 1):
-            add(["C10", "C09"], "wrong-size", f"resize-wrong-size want[{want}] got[{len(pids)}] ctx[{ctx}]")
+        for want, pids, broken, same_started, faults, before in notes.get("all_resizes", [notes["last_resize"]]):
+            if not (not broken and same_started and faults == 0 and worker_timeouts == 0 and len(plan["threads"]) == 1):
+                continue
+            if len(pids) != want:
+                add(["C10", "C09"], "wrong-size", f"resize-wrong-size want[{want}] got[{len(pids)}] ctx[{ctx}]")
+            kept = len(set(before) & set(pids))
+            # Proofs/ResizeThm.resize_returns_as_asked: min(alive-when-it-looked, requested) previous workers are kept
+            if kept != min(len(before), want):
+                add(["C10"], "survivors-restarted", f"resize-kept[{kept}]-of-previous[{len(before)}]-for[{want}] ctx[{ctx}]",
+                    f"before {before} after {pids}")
     # 9a. get_reusable_executor / _resize raised on a healthy pool
     if fam in ("resize", "reuse") and not kills and not fatal_kinds:
         for op, ename, msg in notes.get("api_errors", []):
